@@ -42,7 +42,8 @@ PROBES = ['file_template_munged_to_other_file', 'render_after_restart', 'render_
           'vars_set_then_rendered', 'defaults_changed_then_rendered',
           'munge_with_new_defaults', 'generated_program_family',
           'string_syntax_family', 'return_value_not_text',
-          'render_raised_same_as_fresh', 'restart_of_uncooked_template']
+          'render_raised_same_as_fresh', 'restart_of_uncooked_template',
+          'munge_raced_with_a_render', 'munge_blocked_on_the_compile_lock']
 RULE = ('histories of 1-12 operations on one template object of class HTML, '
         'String, HTMLFile or File; sources are either compositions of '
         'hand-written fragments (sort / sort_expr / reverse_expr / batching / '
@@ -511,6 +512,8 @@ def gen_case(seed, tier):
     if is_file:
         kinds += ['fs_write', 'fs_write', 'fs_remove', 'fs_ioerror',
                   'restart', 'munge_file']
+    elif r.random() < 0.4:
+        kinds += ['munge_race']
     # swarm: a random subset of the non-render kinds
     allowed = {k for k in sorted(set(kinds)) if r.random() < 0.7} | {'render'}
     kinds = [k for k in kinds if k in allowed]
@@ -524,6 +527,9 @@ def gen_case(seed, tier):
             ops.append(['munge', r.randrange(nsrc),
                         r.choice([None, None, {'dflt': 'D2'}, {},
                                   {'dflt': 'D3', 'sk': 'a'}])])
+        elif k == 'munge_race':
+            ops.append(['munge_race', r.randrange(3), r.randrange(nsrc),
+                        r.randint(0, 10 ** 9)])
         elif k == 'var':
             ops.append(['var', r.choice(['vv', 'x', 'sk']),
                         r.choice(['V', 'n', 'w&'])])
@@ -886,6 +892,49 @@ def run_case(case):
                 state['with_sub'] = False
             note_cook(ok)
             since.add('munge')
+        elif k == 'munge_race':
+            # an editor's munge() arrives while a request is being rendered
+            # (possibly the first one after a restart, which compiles): two
+            # real threads under the seeded scheduler of engine B.  Whatever
+            # the request gets, once both are done the template is the
+            # re-edited one
+            from . import sched as S
+            rs = core.stream(op[3], 'c17race')
+            jj = effective(state)[1]
+            newsrc = src_text(case, op[2])
+
+            def request(i=op[1], jj=jj, t=t):
+                return call_template(case, t, jj, i, {}, True)
+
+            def editor(t=t, newsrc=newsrc):
+                t.munge(newsrc)
+            segs = []
+            for _ in range(rs.choice([1, 1, 2, 3, 6])):
+                segs.append([rs.randrange(2), rs.choice(
+                    [rs.randrange(1, 60), rs.randrange(1, 600),
+                     rs.randrange(1, 4000)])])
+            sim = S.Sim([request, editor], S.SegmentPolicy(segs),
+                        3 * 10 ** 6, wall_s=120)
+            sim.run()
+            steps += sim.steps
+            if sim.harness_error:
+                raise RuntimeError(sim.harness_error)
+            if sim.abort:
+                viol('race', 'race:' + sim.abort,
+                     {'segments': segs, 'what': 'render || munge'}, step)
+            out = sim.th[1].outcome
+            if out and out[0] == 'exc':
+                viol('race', 'race:munge-raised',
+                     {'segments': segs, 'error': repr(out[1])}, step)
+            state['src'], state['j'] = newsrc, op[2]
+            since.add('munge')
+            if any(w_ and not w_.startswith(('finished',))
+                   for (_f, w_, _t) in sim.switches[:-1]):
+                probe('munge_raced_with_a_render')
+                faults['sched.preemption'] = faults.get(
+                    'sched.preemption', 0) + 1
+            if sim.lock_blocks:
+                probe('munge_blocked_on_the_compile_lock')
         elif k == 'munge_file':
             # a file template pointed at another file
             new = FNAME2 if state['fname'] == FNAME else FNAME
@@ -976,3 +1025,11 @@ def shrink(case):
                     ins[i] = dict(inp, recs=inp['recs'][:q] +
                                   inp['recs'][q + 1:])
                     yield dict(case, inputs=ins)
+
+
+def warmup():
+    """import every lazily imported tag class in the main thread: the
+    munge_race operation runs two threads under the scheduler, and an import
+    (with its lock) must not happen there"""
+    from . import c18
+    c18.warmup()
